@@ -13,6 +13,11 @@ Pipeline of one run (`zoo_pipeline`):
      type-parameter members, kind rotations over 26 distinct resources, nestings to depth 3, wide
      tuples/structs), into real Rust SystemData types: gen-out/zoo*_cases.rs, compiled into the
      `zoo*` binaries (up to 8 compilation units built in parallel).
+     Twin cases: one type generic in its resource types, instantiated from two sibling blocks of one
+     function with SAME-NAMED local resource types (identical type_name, distinct TypeId), first
+     block then second block in one process; and a second pass re-queries reads()/writes() of every
+     type in a shuffled order after everything else ran (declared ids are a function of the type,
+     not of its printed name nor of what happened earlier in the process).
   3. the binaries run every type: reads()/writes() (type and StaticAccessor of a real System),
      fetch through 4 paths with single-threaded borrow probes while alive / after drop,
      setup through 4 paths on worlds with distinctive pre-existing values.  Observations are
@@ -130,11 +135,11 @@ def run_mc(ctx, tier, workers_each=4, light=False):
 
 def budgets(tier, scale=1.0):
     if tier == "quick":
-        b = {"n_mc": 900, "n_arity": 500, "n_rot": 52, "n_deep": 280, "n_wide": 220, "units": 8}
+        b = {"n_mc": 900, "n_arity": 500, "n_rot": 52, "n_deep": 260, "n_wide": 200, "n_twin": 48, "units": 8}
     else:
-        b = {"n_mc": 9000, "n_arity": 0, "n_rot": 260, "n_deep": 3000, "n_wide": 2500, "units": 8}   # n_arity 0 = whole table
+        b = {"n_mc": 9000, "n_arity": 0, "n_rot": 260, "n_deep": 3000, "n_wide": 2500, "n_twin": 400, "units": 8}   # n_arity 0 = whole table
     if scale != 1.0:
-        for k in ("n_mc", "n_arity", "n_rot", "n_deep", "n_wide"):
+        for k in ("n_mc", "n_arity", "n_rot", "n_deep", "n_wide", "n_twin"):
             b[k] = int(b[k] * scale) if b[k] else b[k]
     return b
 
@@ -159,7 +164,7 @@ def build_and_run(ctx, mc_results, tier, scale=1.0):
         try:
             t = time.time()
             stats, units = zg.generate(mc_files, ar_files, ctx.seed, b["n_mc"], b["n_arity"], b["n_rot"], b["n_deep"],
-                                       b["n_wide"], gen_out, desc_dir, units=b["units"])
+                                       b["n_wide"], gen_out, desc_dir, units=b["units"], n_twin=b["n_twin"])
             stats["gen_wall_s"] = round(time.time() - t, 1)
             # unoptimised, no debug info: the zoo is thousands of monomorphisations (x-zoo has its own target dir)
             saved = {k: os.environ.get(k) for k in ("CARGO_PROFILE_DEV_OPT_LEVEL", "CARGO_PROFILE_DEV_DEBUG")}
@@ -268,6 +273,8 @@ def zoo_pipeline(ctx, invariants, tier=None, scale=1.0, what="", light=False):
         "max_depth": stats["max_depth"], "tlc_emitted": stats["emitted"],
         "events": tot.get("events", 0), "fetch_runs": tot.get("fetch_runs", 0), "setup_runs": tot.get("setup_runs", 0),
         "exec_runs": tot.get("exec_runs", 0),
+        "twin_blocks_same_type_name_distinct_resource_types": tot.get("twin_blocks", 0),
+        "second_pass_blocks_declarations_requeried_in_shuffled_order": tot.get("second_pass", 0),
         "fetch_ok": tot.get("fetch_ok", 0), "fetch_panic_missing": tot.get("fetch_missing", 0),
         "fetch_panic_borrow": tot.get("fetch_borrow", 0), "fetch_panic_other": tot.get("fetch_other", 0),
         "fetch_with_foreign_borrow": tot.get("with_held", 0),
